@@ -365,6 +365,19 @@ def check(run: Run) -> None:
         if ps != ["state", "graph", "node_index", "now", "started", "wall_clock", "supports_wall_clock"]:
             run.finding("C18.f", "NodeScheduler::NodeScheduler:params", f"constructor parameter order changed: {ps}", loc=f"{SCHED}:{fd.line}")
 
+    with run.obligation("C18.g", "K1", "the graph side of a wake-up request: a request for an earlier future time replaces the node's slot AND lowers the graph's "
+                        "next cycle, so the executor visits that time (shared with C02.a)"):
+        sub = Run("C18", run.tier, run.tree, quiet=True)
+        c02.check(sub)
+        run.evaluations += sub.evaluations
+        run.count(1, "C18.g")
+        for f in sub.findings:
+            if f.rule == "C02.a":
+                run.finding("C18.g", f.key, f.message, f.loc)
+        for e in sub.errors:
+            if e.startswith("C02.a:"):
+                raise AnalysisError("model-mismatch", e)
+
 
 def _V(x):
     return x
